@@ -241,10 +241,10 @@ def estimate_cases(ctx, batch, keys, stripped, rej):
         info = L.shipped(name)
         surface = name not in ('BensonGA', 'PPY')
         pool = list(SEEDS_GAS) + (list(SEEDS_SURF) if surface else [])
-        pool += [random_smiles(rng, surface) for _ in range(ctx.n(30, 400))]
+        pool += [random_smiles(rng, surface) for _ in range(ctx.n(30, 200))]
         rng.shuffle(pool)
         done = 0
-        want = ctx.n(10, 120)
+        want = ctx.n(10, 50)
         units = keys + stripped + rng.sample(rej, min(4, len(rej)))
         for smi in pool:
             if done >= want:
@@ -318,7 +318,7 @@ def correlation_cases(ctx, batch, keys, stripped, rej):
         pick = pool if ctx.thorough() else rng.sample(pool, min(ctx.n(10, 0), len(pool)))
         units = keys + stripped + rng.sample(rej, min(3, len(rej)))
         for nm in pick:
-            for T in L.temperatures(info, rng, [nm], ctx.n(1, 3)):
+            for T in L.temperatures(info, rng, [nm], ctx.n(1, 2)):
                 flags = [None, True, 0]
                 corr = info.corr[nm]
                 ev = L.eval_object(corr, T, units, flags, info, [nm])
@@ -339,8 +339,13 @@ def run(ctx):
     for fname, rec in common.load_corpus('C07'):
         ctx.count('corpus')
         replay(ctx, rec)
+    import time
+    t0 = time.time()
     estimate_cases(ctx, batch, keys, stripped, rej)
+    t1 = time.time()
     correlation_cases(ctx, batch, keys, stripped, rej)
+    t2 = time.time()
+    ctx.extra.setdefault('coverage', {})['phase_seconds'] = {'estimates': round(t1 - t0, 1), 'group_correlations': round(t2 - t1, 1)}
     reqs = [dict(x.request, op='c07.estimate') if kind == 'est' else x[7] for kind, x in batch]
     replies = ctx.model(reqs)
     if replies is None:
